@@ -114,6 +114,11 @@ def branch_tags(e, pre):
     tags = []
     a = e.get("args", {})
     if not e["ok"]:
+        if e["op"] == "override_reassign" and not e["panic"] and a["s"].startswith("s_"):
+            tp = [v for v in pre["veh"] if v["id"] == a["p"]]
+            tr = [v for v in pre["veh"] if v["id"] == a["r"]]
+            if tp and tr and tp[0]["ty"] != tr[0]["ty"] and "no capacity" in e.get("msg", ""):
+                tags.append("cross_type_depot_takeover_refused")
         return tags
     post = e["S"]
     ids_post = {v["id"] for v in post["veh"]} | {d["id"] for d in post["dum"]}
@@ -126,6 +131,10 @@ def branch_tags(e, pre):
             tags.append("provider_deleted")
         if a["s"].startswith("s_") or a["e"].startswith("e_"):
             tags.append("segment_with_depot")
+        tp = [v for v in pre["veh"] if v["id"] == a["p"]]
+        tr = [v for v in pre["veh"] if v["id"] == a["r"]]
+        if tp and tr and tp[0]["ty"] != tr[0]["ty"] and a["s"].startswith("s_"):
+            tags.append("cross_type_depot_takeover")
     if len(post["dum"]) > len(pre["dum"]):
         tags.append("new_dummy")
     if len(post["veh"]) < len(pre["veh"]):
